@@ -110,11 +110,19 @@ const (
 	vStmtB = "insert into tb(id) values (?) on duplicate key update id = id"
 )
 
+// no "values" keyword / no variables / columns and variables do not match
+var vBadStmts = []string{"insert into ta (id) select 1", "insert into ta (id) values (1)", "insert into ta (id, x) values (?)"}
+
 func vSqlxFactory(in executors.VerifInst, rt *executors.VerifRT) *executors.VerifHooks {
 	if in.Kind != "sqlx" {
 		return nil
 	}
 	conn := &vConn{rt: rt, stmts: map[int64]string{}}
+	for _, bad := range vBadStmts {
+		if _, err := NewBulkInserter(conn, bad); err == nil {
+			return nil // a malformed statement was accepted: the case fails ("unknown kind")
+		}
+	}
 	bi, err := NewBulkInserter(conn, vStmtA)
 	if err != nil {
 		return nil
@@ -158,6 +166,13 @@ func vSqlxFactory(in executors.VerifInst, rt *executors.VerifRT) *executors.Veri
 				return 0
 			}
 			return v
+		},
+		// Insert with one argument too many, UpdateStmt with a malformed statement: an error, no effect
+		Reject: func(v int, id int64) bool {
+			if v == 0 {
+				return bi.Insert(id, id) != nil
+			}
+			return bi.UpdateStmt(vBadStmts[v%len(vBadStmts)]) != nil
 		},
 	}
 }
